@@ -41,7 +41,10 @@ func c08Source(L int, errAt int, closeWriter bool) (*StreamReader[int], *StreamW
 }
 
 // (a) copy: every child sees the full source sequence in order however reads and closes of the children interleave
-func c08Copy(n, L, ops int, array bool) {
+func c08Copy(n, L, ops int, array bool) { c08CopyAfter(n, L, ops, array, 0) }
+
+// pre: items already read from the source before it is copied
+func c08CopyAfter(n, L, ops int, array bool, pre int) {
 	errAt := vchoose("errAt", L+1) - 1 // -1: no error item
 	var src *StreamReader[int]
 	var sw *StreamWriter[int]
@@ -57,9 +60,16 @@ func c08Copy(n, L, ops int, array bool) {
 	} else {
 		src, sw, items = c08Source(L, errAt, true)
 	}
+	for k := 0; k < pre; k++ {
+		v, err := src.Recv()
+		vassert(err == items[k].err && v == items[k].v, "source delivers its items")
+	}
 	cps := src.Copy(n)
 	vassert(len(cps) == n, "Copy returns n readers")
 	pos := make([]int, n)
+	for i := range pos {
+		pos[i] = pre // a copy continues where the source stands
+	}
 	closed := make([]bool, n)
 	for k := 0; k < ops; k++ {
 		c := vchoose("child", n)
@@ -88,6 +98,8 @@ func VerifC08Copy2()      { c08Copy(2, 2, 6, false) }
 func VerifC08Copy3()      { c08Copy(3, 2, 5, false) }
 func VerifC08Copy2Long()  { c08Copy(2, 3, 6, false) }
 func VerifC08CopyArray2() { c08Copy(2, 2, 5, true) }
+func VerifC08CopyArrayAfterRead() { c08CopyAfter(2, 3, 4, true, 1+vchoose("pre", 2)) }
+func VerifC08CopyAfterRead()      { c08CopyAfter(2, 3, 4, false, 1+vchoose("pre", 2)) }
 
 // closing the last copy closes the source exactly once; the writer is told on its next send
 func VerifC08CopyClose() {
